@@ -209,6 +209,26 @@ pub fn run(ctx: &Ctx) -> Report {
         let v = judge(&t);
         st0.record(&v, stable_hash(&t), true, || case_json(&t));
     }
+    // destinations that a fingerprint, a path normaliser or a shell would identify: they are
+    // different strings, hence different destinations, each with its own tag
+    let mut pairs: Vec<(String, String)> = fingerprint_twins("out", ".txt");
+    for (a, b) in [("a", "./a"), ("a", "a/"), ("a/b", "a//b"), ("d/f", "d/./f"), ("log", "log/."), ("~/x", "/root/x"), ("~/x", "x"), ("$HOME/x", "/root/x"), ("a", "A"), ("a ", "a"), ("é", "e\u{301}")] {
+        pairs.push((a.to_string(), b.to_string()));
+    }
+    if let Ok(h) = std::env::var("HOME") {
+        pairs.push(("~/x".to_string(), format!("{h}/x")));
+        pairs.push(("~/x".to_string(), format!("{}/x", h.trim_end_matches('/'))));
+    }
+    for (a, b) in &pairs {
+        for t in [
+            E::and(E::A(Act::FPrint(a.clone())), E::A(Act::FPrint(b.clone()))),
+            E::or(E::A(Act::FPrint0(b.clone())), E::A(Act::FPrint0(a.clone()))),
+            E::list(E::A(Act::FPrintf(a.clone(), vec![FEl::F(Fld::NameNoStart)])), E::and(E::A(Act::FPrint(a.clone())), E::A(Act::FPrintf(b.clone(), vec![FEl::F(Fld::NameNoStart)])))),
+        ] {
+            let v = judge(&t);
+            st0.record(&v, stable_hash(&t), true, || case_json(&t));
+        }
+    }
     total.merge(st0);
     // long chains and deep nesting whose output is all plain: the mode must stay plain
     let mut st = Stats::new();
@@ -254,7 +274,7 @@ pub fn run(ctx: &Ctx) -> Report {
     total.merge(rnd);
     Report {
         stats: total,
-        rule: "random operator trees over up to ~6 output actions drawn from {-print, -print0, -printf F\\n, -printf F, -fprint f, -fprint0 f, -fprintf f F, -print-file-fid, -quit} with f in {a,b,c} (so sharing and non-sharing both occur) and a few tests, executed on three files, compiled without and with a -threads option; plus chains with up to 300 distinct destinations. Oracle: framed mode iff some action writes to a file, NUL-terminates or prints a format whose last element is not the newline escape (computed on the specification side); plain mode has no destination table; in framed mode the table is a bijection between tags and the distinct requested (destination, terminator) pairs, the stdout stream of every file parses completely into frames, every tag is a key of the table, and aligning the frames with the outputs find's rules produce, table[tag] is the producing action's (destination, terminator). Non-trivial: >=3 requested pairs or a destination shared by different terminators, with at least one output produced. Distinct: by tree.".into(),
+        rule: "random operator trees over up to ~6 output actions drawn from {-print, -print0, -printf F\\n, -printf F, -fprint f, -fprint0 f, -fprintf f F, -print-file-fid, -quit} with f in {a,b,c} (so sharing and non-sharing both occur) and a few tests, executed on three files, compiled without and with a -threads option; plus chains with up to 300 distinct destinations, and pairs of destinations that a truncated fingerprint, a path normaliser or a shell would identify (hash twins, a vs ./a vs a/, ~/x vs $HOME/x, a vs A). Oracle: framed mode iff some action writes to a file, NUL-terminates or prints a format whose last element is not the newline escape (computed on the specification side); plain mode has no destination table; in framed mode the table is a bijection between tags and the distinct requested (destination, terminator) pairs, the stdout stream of every file parses completely into frames, every tag is a key of the table, and aligning the frames with the outputs find's rules produce, table[tag] is the producing action's (destination, terminator). Non-trivial: >=3 requested pairs or a destination shared by different terminators, with at least one output produced. Distinct: by tree.".into(),
         assumptions: crate::checks::c02::runtime_assumptions(),
         exhaustive: false,
     }
